@@ -140,12 +140,14 @@ def cfg_name(cfg):
     return "aes%d/eih%d/pfx%d-%d/seg=%s" % (cfg["KeyLen"] * 8, cfg["Depth"], cfg["ReqPfx"], cfg["RspPfx"], cfg["AllowSeg"])
 
 
-def budget():
+def budget(big=True):
+    """(TLC workers per run, runs in parallel).  The graphs of the quick tier are small: JVM start dominates,
+    so many runs with two workers each; the thorough tier has larger toy configurations."""
     try:
         total = int(vlib.os.environ.get("VERIF_MAX_WORKERS", "16"))
     except ValueError:
         total = 16
-    per = max(2, total // 4)
+    per = max(2, total // 4) if big else 2
     return per, max(1, total // per)
 
 
@@ -165,7 +167,7 @@ def run(tier, seed, replay_file):
 
     k = common.vconst(work)
     big = tier == "thorough"
-    per, par = budget()
+    per, par = budget(big)
     primary = CONFIGS[seed % len(CONFIGS)]
     v.coverage["constants_from_code"] = {x: k[x] for x in ("StreamMaxChunk", "StreamTag", "MaxPaddingLength", "IdentityHeaderLength",
                                                            "TCPRequestFixedLengthHeaderLength", "StreamFirstCap")}
@@ -288,8 +290,9 @@ def run(tier, seed, replay_file):
         jobs.append(("simulate", simulate, ("simulate", CONFIGS[(seed + 3) % len(CONFIGS)], 60, 150)))
     else:
         jobs.append(("toy-relay-up", design, ("toy-relay-up", dict(toy_relay, Writers='{"Ac"}'))))
-        jobs.append(("toy-relay-down", design, ("toy-relay-down", dict(toy_relay, Writers='{"Bs"}', FirstCap=6))))
-        jobs.append(("toy-both", design, ("toy-both", dict(toy, Writers='{"Ac","As"}', PSizes="{0,2}", Pads="{0,1}", WSizes="{1,6,7}", SrcCaps="{7}"))))
+        jobs.append(("toy-relay-down", design, ("toy-relay-down", dict(toy_relay, Writers='{"Bs"}', WSizes="{1,7}"))))
+        jobs.append(("toy-both", design, ("toy-both", dict(toy, Writers='{"Ac","As"}', PSizes="{0,2}", Pads="{0,1}", WSizes="{1,7}", RSizes="{1,7}",
+                                                             Paths='{"plain","wt"}', MaxSent=7))))
         jobs.append(("toy-live", design, ("toy-live", dict(toy, Writers='{"As"}', PSizes="{0,3}", Pads="{0,1}", WSizes="{1,5,7}", RSizes="{1,7}",
                                                              SrcCaps="{7}"), "MCSS2022StreamLive.cfg")))
         for ci, cfg in enumerate(CONFIGS):
